@@ -104,6 +104,14 @@ var GNPool = []GNPoolEntry{
 	}},
 	// GeneralName entries of types the profile does not define: the parser skips them, the lints that walk the raw
 	// extension themselves must not stop at them
+	// elements that are not GeneralNames at all: the tag NUMBER of a name type (or none) in another tag CLASS - what a CA
+	// emits when it forgets the IMPLICIT tag. The parser dispatches on the number and accepts them.
+	{"gn-universal-ia5string", func() *der.Node { return der.Str(der.TagIA5, "example.org") }},
+	{"gn-universal-utf8string", func() *der.Node { return der.Str(der.TagUTF8, "example.org") }},
+	{"gn-universal-null", func() *der.Node { return der.Null() }},
+	{"gn-universal-integer-2", func() *der.Node { return der.Prim(2, []byte{0x02}) }},
+	{"gn-application-2", func() *der.Node { return &der.Node{Class: 1, Tag: 2, Content: []byte("app.example.org")} }},
+	{"gn-private-2-empty", func() *der.Node { return &der.Node{Class: 3, Tag: 2} }},
 	{"gn-high-tag-31", func() *der.Node { return der.CtxPrim(31, []byte{0}) }},
 	{"gn-high-tag-200-constructed", func() *der.Node { return der.Ctx(200, der.Str(der.TagUTF8, "x")) }},
 	{"gn-tag-9", func() *der.Node { return der.CtxPrim(9, []byte("nine")) }},
